@@ -1078,7 +1078,7 @@ def run(ctx):
                                           "{-3,-1,0..7,100} x flg_static x bodyexclude {-1,0,1,2} x 7 masks = 44352 lines, + 2000 random")
     # ---- scenes
     if thorough:
-        for chunk in range(12):          # chunked: the per-ray outputs of one chunk are held in memory
+        for chunk in range(10):          # chunked: the per-ray outputs of one chunk are held in memory
             run_scenes(ctx, impl, drv, 100, 6, 80, dev, found, stats)
     else:
         run_scenes(ctx, impl, drv, 40, 5, 40, dev, found, stats)
